@@ -99,7 +99,9 @@ def main():
     finally:
         if alt:
             sh("git -C %s worktree remove --force %s" % (REPO, scratch))
-            sh("rm -rf %s/work/target-subj-*-alt* %s/work/target-alt* %s/work/harness-alt* %s/work/target-cli-alt*" % (VERIF, VERIF, VERIF, VERIF))
+            import hashlib
+            tag = "-alt" + hashlib.sha256(scratch.encode() + b"\0").hexdigest()[:6]      # pipeline.alt_tag() of this scratch tree only
+            sh("rm -rf %s/work/target-subj-*%s %s/work/target%s* %s/work/harness%s %s/work/target-cli%s*" % (VERIF, tag, VERIF, tag, VERIF, tag, VERIF, tag))
         else:
             sh("git -C %s checkout -- ." % REPO)
             sh("git -C %s checkout -- evidence" % VERIF)
